@@ -32,12 +32,12 @@ CLAIMED = {
   "vehicle property: sampled option space; the stored init segment is everything before the first moof",
   TECH + "independent box diff as response invariant"),
  "C15": ("exploration",
-  "intruder actors holding the credentials of a lesser role (anonymous, guest JWT from /api/refresh/access, user, media-vs-other-users) harvest every CSRF token, cookie and JWT that role can legitimately obtain and fire well-formed mutation recipes for every state-changing handler plus a generic sweep over the routing table discovered at run time x {GET,HEAD,POST,PUT,DELETE}; a route-agnostic state oracle compares the committed content of every table (Token excluded) and the blob directory before and after every delivered request and checks each difference against the documented role policy; a CSRF probe (authorised client) submits fresh, reused, cross-service, cross-cookie, tampered and salt-swapped tokens on operations with unique visible effects under duplicated requests, lost responses, clock jumps past the 20-minute row lifetime and server restarts; legitimate manager traffic is interleaved",
-  "sampling; requests atomic (the check-then-insert race inside CsrfProtection.check is not explored); cookie-session login runs on a shim of Flask-Login, JWT paths on the real library",
+  "intruder actors holding the credentials of a lesser role (anonymous, guest JWT from /api/refresh/access, user, media-vs-other-users) harvest every CSRF token, cookie and JWT that role can legitimately obtain and fire well-formed mutation recipes for every state-changing handler plus a generic sweep over the routing table discovered at run time x {GET,HEAD,POST,PUT,DELETE}; a route-agnostic state oracle compares the committed content of every table (Token excluded) and the blob directory before and after every delivered request and checks each difference against the documented role policy; a CSRF probe (authorised client) submits fresh, reused, cross-service, cross-cookie, tampered and salt-swapped tokens on operations with unique visible effects under duplicated requests, lost responses, clock jumps past the 20-minute row lifetime and server restarts; legitimate manager traffic is interleaved. Second stage (one run in six): two or three management requests carrying the same CSRF token are served concurrently on baton-passing threads that park at every SQL statement, commit and blob-file operation; the seeded scheduler picks the interleaving and the token must be accepted at most once",
+  "sampling; outside the second-stage bursts requests are atomic; cookie-session login runs on a shim of Flask-Login, JWT paths on the real library",
   TECH + "state-diff oracle attributing every durable change to one request"),
  "C17": ("exploration",
-  "an authorised manager actor issues seeded sequences of 4-28 management operations over the real API (create/edit/delete stream, upload of forged, fixture and truncated media, index, edit and delete media, add/edit/delete key, create/edit/delete multi-period stream, stream defaults) with existing and non-existing targets and repeated names, while restarts, duplicated requests and lost responses are injected; after every delivered request the durable state is read with a private sqlite3 connection and checked for referential consistency, unique names and ownership of deletions; liveness probes ask every listed stream / multi-period stream for manifests of random templates and modes (never 5xx) and every uploaded-and-indexed file is read back through the on-demand and segment routes",
-  "sampling; requests atomic; process-crash and disk-error faults inside a request are not injected in this configuration",
+  "an authorised manager actor issues seeded sequences of 4-28 management operations over the real API (create/edit/delete stream, upload of forged, fixture and truncated media, index, edit and delete media, add/edit/delete key, create/edit/delete multi-period stream, stream defaults) with existing and non-existing targets and repeated names, while restarts, duplicated requests and lost responses are injected; after every delivered request the durable state is read with a private sqlite3 connection and checked for referential consistency, unique names and ownership of deletions; liveness probes ask every listed stream / multi-period stream for manifests of random templates and modes (never 5xx) and every uploaded-and-indexed file is read back through the on-demand and segment routes. Second stage (one run in four): two or three management operations are served concurrently on baton-passing threads (pre-emption at every SQL statement, commit, rollback, blob save and unlink; SQLite lock waits are scheduled, a deadlock is resolved like a busy timeout); the same referential rules are checked on the state the burst leaves, and whether that state equals some sequential order of the requests is counted in the evidence",
+  "sampling; outside the bursts requests are atomic; process-crash and disk-error faults inside a request are not injected; linearizability of bursts is measured (probes) but not judged because no listed property states it",
   TECH + "invariants on durable state after every event + liveness probes"),
  "C20": ("exploration",
   "the reader's two seams are simulator-owned: the clock behind Buffer.timestamp (ticking, frozen so that all timestamps tie, stepping backwards so that the newest buffer looks oldest - the seed thereby chooses the eviction order) and the underlying file (BytesIO or a real file on the simulated disk); seeded sequences of read(n), read(-1), seek (three whences, negative and beyond-end), tell and peek are compared operation by operation with io.BytesIO over the same (offset, size) window for buffer sizes 1..16384 including non-divisors and cache limits >= 2",
@@ -72,7 +72,7 @@ CLAIMED = {
   "the quantifier over all 16-byte key ids, seeds and licence-URL strings of the pure helper functions is NOT addressed by this family: only the keys that occur in runs (fixture KIDs, manager-generated random ones) are covered",
   TECH + "reference model of the key store + cross-message comparison"),
  "C16": ("fault_enumeration",
-  "three fault families, labelled separately in the evidence. hostile: a finite catalogue built at run time from the routing table and the option registry (15 manifest/media/patch/player targets x every registered option name x 42 type-confused, boundary and hostile values; documented option combinations; every routing rule x 3 fillings of its path variables x {GET,HEAD,POST,PUT,DELETE} x {no body, empty/junk/list JSON, junk form}; the same bodies carrying a CSRF token valid for the route's service; licence-endpoint bodies) is swept in 48 slices x 5 world variants (complete, no encrypted media, no audio, no timing reference, unindexed media) x {anonymous, authorised} - cell (run index) fixed by a stride permutation, VERIF_SEED only rotates the start. storage: stored MP4 files are damaged between requests (truncation at every box boundary -1/0/+1/+4/+9, header bit flips, size-field edits) and then indexed, inspected, listed and served. inject: seeded error-injection sessions (verr/aerr, 404/410/503/504, failures=K, vod and live numbers, neighbours of the target, duplicated requests, lost responses, cookie loss, restarts) against a reference model of the documented protocol. Oracle on every delivered request: no unhandled exception, no 5xx other than the synthetic one the query asks for, and termination within a deterministic step budget (backward-jump counter via sys.monitoring, so a hang is a replayable violation rather than a wall-clock kill)",
+  "three fault families, labelled separately in the evidence. hostile: a finite catalogue built at run time from the routing table and the option registry (15 manifest/media/patch/player targets x every registered option name x 42 type-confused, boundary and hostile values; documented option combinations; every routing rule x 3 fillings of its path variables x {GET,HEAD,POST,PUT,DELETE} x {no body, empty/junk/list JSON, junk form}; the same bodies carrying a CSRF token valid for the route's service; licence-endpoint bodies) is swept in 48 slices x 5 world variants (complete, no encrypted media, no audio, no timing reference, unindexed media) x {anonymous, authorised} - cell (run index) fixed by a stride permutation, VERIF_SEED only rotates the start. storage: stored MP4 files are damaged between requests (truncation at every box boundary -1/0/+1/+4/+9, header bit flips, size-field edits) and then indexed, inspected, listed and served. inject: seeded error-injection sessions (verr/aerr, 404/410/503/504, failures=K, vod and live numbers, neighbours of the target, duplicated requests, lost responses, cookie loss, restarts) against a reference model of the documented protocol. Oracle on every delivered request: no unhandled exception, no 5xx other than the synthetic one the query asks for, and termination within a deterministic step budget (backward-jump counter via sys.monitoring, so a hang is a replayable violation rather than a wall-clock kill). race (second stage): legitimate management operations served concurrently under the pre-emptive scheduler must not answer 5xx either (a statement that gives up on SQLite's write lock when every live request waits is counted, not judged)",
   "the catalogue is finite and enumerated, not exhaustive over all query strings; quick covers 144 of the 480 hostile cells per VERIF_SEED, thorough all of them; requests are atomic",
   TECH + "fault catalogue enumeration with response and step-budget oracle + protocol reference model"),
  "C18": ("fault_enumeration",
